@@ -98,7 +98,21 @@ Definition ev_rand (f : format) (ev : bytes) : res (Z * Z) :=
   do data <- body f ev;
   do a <- le_at data 0 8; do b <- le_at data 8 8; Ok (a, b).
 
+(* TableID: `pos := f.HeaderLength` is a byte in the Go code, and so are pos+1 .. pos+5 and the slice bound
+   pos+4: they wrap modulo 256 (header lengths above 250 never occur in practice, MySQL's is 19) *)
 Definition ev_table_id (f : format) (ev : bytes) : res Z :=
+  do typ <- ev_type ev;
+  do hs <- header_size f typ;
+  let pos := f_hlen f in
+  let at_k (k : Z) := at_ ev (Z.to_nat (u8 (pos + k))) in
+  if hs =? 6 then
+    if 256 <=? pos + 4 then Panic else le_at ev (Z.to_nat pos) 4
+  else
+    do b0 <- at_k 0; do b1 <- at_k 1; do b2 <- at_k 2; do b3 <- at_k 3; do b4 <- at_k 4; do b5 <- at_k 5;
+    Ok (b0 + 256 * (b1 + 256 * (b2 + 256 * (b3 + 256 * (b4 + 256 * (b5 + 256 * 0)))))).
+
+(* the same without the wrap: what it computes for header lengths up to 250 (Proofs/TableIdProofs.v) *)
+Definition ev_table_id_lin (f : format) (ev : bytes) : res Z :=
   do typ <- ev_type ev;
   do hs <- header_size f typ;
   let pos := Z.to_nat (f_hlen f) in
